@@ -1790,7 +1790,7 @@ fn batch(thorough: bool, rng: &mut Rng) -> Result<(), String> {
     let part = env_num("C20_PART", 0) as usize;
     let parts = env_num("C20_PARTS", 1).max(1) as usize;
     let start = env_num("C20_START", part as u64) as usize;
-    let count = env_num("C20_COUNT", if thorough { 300000 } else { 1500 }) as usize;
+    let count = env_num("C20_COUNT", if thorough { 75000 } else { 1500 }) as usize;
     let budget = Duration::from_millis(env_num("C20_BUDGET_MS", 60000));
     let timeout = Duration::from_millis(env_num("C20_TIMEOUT_MS", if thorough { 60000 } else { 30000 }));
     let cur = std::env::var("C20_CUR").ok().map(PathBuf::from);
@@ -1910,9 +1910,9 @@ fn generalise(kind: &str) -> String {
 
 fn parent(thorough: bool, rng: &mut Rng) -> Result<(), String> {
     let child_seed = rng.next() >> 2;
-    let parts = env_num("C20_PROCS", if thorough { 8 } else { 6 }).max(1) as usize;
-    let count = env_num("C20_COUNT", if thorough { 300000 } else { 1500 });
-    let budget_s = env_num("C20_BUDGET_S", if thorough { 2400 } else { 55 });
+    let parts = env_num("C20_PROCS", if thorough { 12 } else { 6 }).max(1) as usize;
+    let count = env_num("C20_COUNT", if thorough { 75000 } else { 1500 });
+    let budget_s = env_num("C20_BUDGET_S", if thorough { 1500 } else { 55 });
     let exe = std::env::current_exe().map_err(|e| e.to_string())?;
     let dir = PathBuf::from(env!("CARGO_MANIFEST_DIR")).join("..").join("work").join("c20");
     std::fs::create_dir_all(&dir).map_err(|e| e.to_string())?;
